@@ -358,10 +358,33 @@ def r06_6_byte_and_signextend(repo: Repo, rep: Report):
     rep.check("R06.6", ok, m, ts, "to_signed: two's complement of bit_size bits", "signed interpretation of concrete values changed")
 
 
+def r06_8_widen_before_arith(repo: Repo, rep: Report):
+    rep.rule("R06.8", "ADDMOD/MULMOD: the sum/product is formed on operands already widened to the intermediate size (no wrap-around before the remainder)")
+    from hsa.origin import origin_text
+
+    m, cls = repo.cls("bitvec.HalmosBitVec")
+    meths = class_methods(cls)
+    for name, op in (("addmod", "add"), ("mulmod", "mul")):
+        fn = meths[name]
+        calls = [c for c in body_walk(fn) if isinstance(c, ast.Call) and isinstance(c.func, ast.Attribute) and c.func.attr == op]
+        for c in calls:
+            recv = origin_text(m, fn, c.func.value).replace("$", "")
+            arg = origin_text(m, fn, c.args[0]).replace("$", "") if c.args else "?"
+            wide = lambda t: t.startswith("HalmosBitVec(") and "size=" in t and ("size=self._size + 8" in t or "size=self._size * 2" in t or "size=newsize" in t)
+            ok = wide(recv) and wide(arg)
+            rep.check("R06.8", ok, m, c, f"{name}: {recv[:60]}.{op}({arg[:60]})", f"the {op} must be computed at the widened size: at the operand size it wraps modulo 2**256 before the remainder is taken")
+        rep.check("R06.8", len(calls) == 1, m, fn, f"{name}: {len(calls)} symbolic {op}() site(s)", "a second (unwidened) arithmetic path was added, or the widened one vanished")
+        # the all-concrete shortcut works on unbounded Python ints
+        rets = [r for r in body_walk(fn) if isinstance(r, ast.Return) and r.value is not None and "%" in src(r.value)]
+        want = ast.parse(f"HalmosBitVec((self.value {'+' if op == 'add' else '*'} other.value) % modulus.value, size=size)", mode="eval").body
+        ok = len(rets) == 1 and ast.dump(rets[0].value) == ast.dump(want)
+        rep.check("R06.8", ok, m, rets[0] if rets else fn, f"{name}: concrete result {src(rets[0].value) if rets else '?'}", "concrete shortcut must compute on Python integers (no wrap-around)")
+
+
 def r06_7_shared(repo: Repo, rep: Report):
     rep.rule("R04.2", "exact definitions of the abstractions (shared with C04)")
     r04_2_refine_exact(repo, rep)
     r01_2_3_arm_semantics(repo, rep)
 
 
-RULES = [r06_1_zero_divisor, r06_2_bounded_cost, r06_3_operator_table, r06_4_wrapper_term_boundary, r06_5_bool_closedness, r06_6_byte_and_signextend, r06_7_shared]
+RULES = [r06_8_widen_before_arith, r06_1_zero_divisor, r06_2_bounded_cost, r06_3_operator_table, r06_4_wrapper_term_boundary, r06_5_bool_closedness, r06_6_byte_and_signextend, r06_7_shared]
